@@ -186,6 +186,18 @@ impl Sched {
 
     /// Run until nothing is enabled or `max_steps` more steps were taken.
     pub fn run(&mut self, max_steps: u64) -> RunEnd {
+        let r = self.run_inner(max_steps);
+        CASE_STATS.with(|c| {
+            let mut c = c.borrow_mut();
+            c.max_steps = c.max_steps.max(self.steps);
+            if r == RunEnd::StepCap && c.cap_hit.is_none() {
+                c.cap_hit = Some((max_steps, self.pending_tasks().iter().map(|s| s.to_string()).collect()));
+            }
+        });
+        r
+    }
+
+    fn run_inner(&mut self, max_steps: u64) -> RunEnd {
         let limit = self.steps + max_steps;
         loop {
             if self.steps >= limit {
@@ -288,6 +300,23 @@ impl Sched {
     pub fn pending_then_woken(&self) -> u64 {
         self.tasks.iter().map(|t| t.pending_then_woken).sum()
     }
+}
+
+/// Per-thread statistics of the runs of the current case (read by the runner after each case).
+#[derive(Default)]
+pub struct CaseStats {
+    /// largest number of scheduler steps any run of this case needed
+    pub max_steps: u64,
+    /// a run hit its step cap: (cap, tasks still pending)
+    pub cap_hit: Option<(u64, Vec<String>)>,
+}
+
+thread_local! {
+    static CASE_STATS: std::cell::RefCell<CaseStats> = std::cell::RefCell::new(CaseStats::default());
+}
+
+pub fn take_case_stats() -> CaseStats {
+    CASE_STATS.with(|c| std::mem::take(&mut *c.borrow_mut()))
 }
 
 impl Drop for Sched {
